@@ -239,9 +239,15 @@ def tableWrite (σ : State) (c : Conn) : Req → State
   | .ident => resetConn σ c
   | .disconnect => resetConn σ c
 
-/-- is the assignment announced (`announceUpdate`): repeated identical errors are dropped; an unchanged value
-(`changed = pobj.value != value or pobj.readerror` is false) is dropped inside the parameter's omit window -/
+/-- is `m:p` an exported parameter of an exported module (`pobj.export`; the parameters of a module that is not exported
+are not exported either) -/
+def exported (cfg : Cfg) (m : Mod) (p : Par) : Bool := cfg.mods.contains m && (cfg.pars m).contains p
+
+/-- is the assignment announced to the dispatcher (`announceUpdate`): repeated identical errors are dropped; an unchanged
+value (`changed = pobj.value != value or pobj.readerror` is false) is dropped inside the parameter's omit window; and only
+an exported parameter is passed on (`if pobj.export: self.updateCallback(self, pobj)`) -/
 def emits (cfg : Cfg) (m : Mod) (p : Par) (old new : Entry) : Bool :=
+  exported cfg m p &&
   match new with
   | .err k => old != .err k
   | .val v => !(cfg.omitSame m p && old == .val v)
